@@ -19,12 +19,43 @@ Lemma auth_sees_sent_bytes k src content :
   let content' := match src with SNil => [] | _ => content end in
   auth_run k src content = (repeat content' k, content').
 Proof.
-  unfold auth_run. destruct src; cbn [gb_init].
+  intros content'. subst content'. unfold auth_run, auth_run_with. destruct src; cbn [gb_init_with].
   - rewrite get_body_n_fixed by (left; reflexivity). reflexivity.
   - rewrite get_body_n_fixed by (left; reflexivity). reflexivity.
   - destruct k as [|k]; [reflexivity|].
-    cbn [get_body_n]. unfold get_body at 1. cbn [g_override g_copied negb g_buf g_stream g_closed app].
+    cbn [get_body_n]. unfold get_body at 1. cbn [g_override g_copied negb g_buf g_stream g_closed app override_installed src_nonnil src_is_buffer src_is_rbuf andb orb].
     rewrite get_body_n_fixed by (right; reflexivity). reflexivity.
+  - destruct k as [|k]; [reflexivity|].
+    cbn [get_body_n]. unfold get_body at 1. cbn [g_override g_copied negb g_buf g_stream g_closed app override_installed src_nonnil src_is_buffer src_is_rbuf andb orb].
+    rewrite get_body_n_fixed by (right; reflexivity). reflexivity.
+Qed.
+
+(* the closure is installed for every body except nil and the request's own buffer *)
+Lemma override_installed_iff src :
+  override_installed src = true <-> (src <> SNil /\ src <> SBuf).
+Proof.
+  destruct src; cbn; split; intros H; try discriminate; try reflexivity.
+  - destruct H as [H _]. congruence.
+  - destruct H as [_ H]. congruence.
+  - split; discriminate.
+  - split; discriminate.
+Qed.
+
+(* the test is needed in this form: were the closure left out for every *bytes.Buffer, an auth writer asking
+   for the body of a request whose reader payload is the caller's own buffer would be shown the request's
+   empty buffer, k times, while the caller's bytes are sent *)
+Lemma auth_override_needed k content :
+  auth_run_with inst_not_any_buffer k SOtherBuf content = (repeat [] k, content).
+Proof.
+  unfold auth_run_with. cbn [gb_init_with].
+  rewrite get_body_n_fixed by (left; reflexivity). reflexivity.
+Qed.
+
+Lemma auth_override_needed_refuted :
+  exists k content answers sent,
+    auth_run_with inst_not_any_buffer k SOtherBuf content = (answers, sent) /\ answers <> repeat sent k.
+Proof.
+  exists 1, [104; 105], [[]], [104; 105]. split; [reflexivity|discriminate].
 Qed.
 
 (* ---------- escapeQuotes reads back ---------- *)
@@ -176,6 +207,11 @@ Lemma build_reader i c :
   has_form i = false -> (bi_payload i = PReader c \/ bi_payload i = PReadCloser c) ->
   build_body sniff i = OOk (Some (bi_media i)) SStream (DBytes c).
 Proof. intros H1 [H2|H2]; unfold build_body; now rewrite H1, H2. Qed.
+
+Lemma build_buffer i c :
+  has_form i = false -> bi_payload i = PBuffer c ->
+  build_body sniff i = OOk (Some (bi_media i)) SOtherBuf (DBytes c).
+Proof. intros H1 H2. unfold build_body. now rewrite H1, H2. Qed.
 
 Lemma build_nil i :
   has_form i = false -> bi_payload i = PNil -> build_body sniff i = OOk (bi_preset_ct i) SNil DNone.
